@@ -1,7 +1,395 @@
 package props
 
-import "verif/internal/eng"
+import (
+	"fmt"
+	"reflect"
+	"sort"
+	"strings"
 
-func c17LookupCases(tier string, emit func(interface{})) {}
+	"github.com/freeconf/yang/meta"
+	"github.com/freeconf/yang/node"
+	"github.com/freeconf/yang/nodeutil"
+	"github.com/freeconf/yang/val"
+	"verif/internal/eng"
+	"verif/internal/model"
+	"verif/internal/store"
+)
 
-func c17RunLookup(c c17Case) eng.Result { return eng.Result{} }
+// C17 part "lookup": a list kept in a Go slice or map finds, for every key
+// type, exactly the entry whose key equals the requested key, and none when
+// there is none.
+//
+// One case = (list implementation, key type). Inside a case every list content
+// (every ordered arrangement of <= c17LookupMax distinct keys of the type's
+// 5-key alphabet, including the empty list) is loaded directly into a fresh
+// Go object, and every key of the alphabet is looked up through Selection.Find.
+// The entry found must be the one the content holds under that key (its
+// payload leaf is the entry's position, so a neighbour is told apart); absent
+// keys give (nil,nil); a walk over the whole list meets every entry once; the
+// content is unchanged afterwards.
+
+func init() {
+	model.Schemas["lookup"] = `module lookup { namespace "urn:lookup"; prefix lk; revision 0;
+  identity b; identity i0 { base b; } identity i1 { base b; } identity i2 { base b; } identity i3 { base b; } identity i4 { base b; }
+  list string { key k; leaf k { type string; } leaf v { type int32; } }
+  list int8 { key k; leaf k { type int8; } leaf v { type int32; } }
+  list int16 { key k; leaf k { type int16; } leaf v { type int32; } }
+  list int32 { key k; leaf k { type int32; } leaf v { type int32; } }
+  list int64 { key k; leaf k { type int64; } leaf v { type int32; } }
+  list uint8 { key k; leaf k { type uint8; } leaf v { type int32; } }
+  list uint16 { key k; leaf k { type uint16; } leaf v { type int32; } }
+  list uint32 { key k; leaf k { type uint32; } leaf v { type int32; } }
+  list uint64 { key k; leaf k { type uint64; } leaf v { type int32; } }
+  list decimal64 { key k; leaf k { type decimal64 { fraction-digits 2; } } leaf v { type int32; } }
+  list boolean { key k; leaf k { type boolean; } leaf v { type int32; } }
+  list enum { key k; leaf k { type enumeration { enum e0; enum e1; enum e7 { value 7; } enum e8; enum e20 { value 20; } } } leaf v { type int32; } }
+  list identityref { key k; leaf k { type identityref { base b; } } leaf v { type int32; } }
+  list pair { key "k k2"; leaf k { type string; } leaf k2 { type int32; } leaf v { type int32; } }
+}`
+}
+
+var c17LookupKeys = map[string][]string{
+	"string":      {"a", "A", "ab", "b", "é"},
+	"int8":        {"-128", "-1", "0", "1", "127"},
+	"int16":       {"-32768", "-1", "0", "255", "32767"},
+	"int32":       {"-2147483648", "-1", "0", "65536", "2147483647"},
+	"int64":       {"-9223372036854775808", "-1", "0", "9007199254740993", "9223372036854775807"},
+	"uint8":       {"0", "1", "127", "128", "255"},
+	"uint16":      {"0", "1", "32767", "32768", "65535"},
+	"uint32":      {"0", "1", "2147483647", "2147483648", "4294967295"},
+	"uint64":      {"0", "1", "9223372036854775807", "9223372036854775808", "18446744073709551615"},
+	"decimal64":   {"-1.5", "0", "0.01", "1.5", "10"},
+	"boolean":     {"false", "true"},
+	"enum":        {"e0", "e1", "e7", "e8", "e20"},
+	"identityref": {"i0", "i1", "i2", "i3", "i4"},
+	// compound: first components collide on purpose
+	"pair": {"a,1", "a,2", "b,1", "b,2", "a,-1"},
+}
+
+var c17LookupTypes = []string{"string", "int8", "int16", "int32", "int64", "uint8", "uint16", "uint32", "uint64", "decimal64", "boolean", "enum", "identityref", "pair"}
+
+// implementations: the harness' reference node, the library's two reflection
+// nodes over map[string]interface{} trees with map- and slice-backed lists,
+// and over Go structs in slices and maps.
+var c17LookupImpls = []string{"ref", "reflect-map", "node-map", "reflect-slice", "node-slice", "reflect-structslice", "node-structslice", "reflect-structmap", "node-structmap"}
+
+func c17LookupMax(tier string) int {
+	if tier == "thorough" {
+		return 5
+	}
+	return 4
+}
+
+func c17LookupCases(tier string, emit func(interface{})) {
+	for _, impl := range c17LookupImpls {
+		for _, t := range c17LookupTypes {
+			if strings.Contains(impl, "struct") && (t == "enum" || t == "identityref" || t == "pair") {
+				continue
+			}
+			if strings.HasSuffix(impl, "-map") && t == "pair" {
+				// the map stores index by the first key only (documented limitation)
+				continue
+			}
+			emit(c17Case{Part: "lookup", Impl: impl, KeyType: t, Content: []int{c17LookupMax(tier)}})
+		}
+	}
+}
+
+type c17Item[K comparable] struct {
+	K K
+	V int
+}
+
+func c17StructObj[K comparable](name string, keys []val.Value, asMap bool) (map[string]interface{}, func() string) {
+	var zero K
+	kt := reflect.TypeOf(zero)
+	conv := func(v val.Value) K {
+		return reflect.ValueOf(v.Value()).Convert(kt).Interface().(K)
+	}
+	if asMap {
+		m := map[K]*c17Item[K]{}
+		for i, k := range keys {
+			m[conv(k)] = &c17Item[K]{K: conv(k), V: i}
+		}
+		return map[string]interface{}{name: m}, func() string {
+			var parts []string
+			for k, it := range m {
+				parts = append(parts, fmt.Sprint(k, "|", it.K, "=", it.V))
+			}
+			sort.Strings(parts)
+			return strings.Join(parts, ";")
+		}
+	}
+	var sl []*c17Item[K]
+	for i, k := range keys {
+		sl = append(sl, &c17Item[K]{K: conv(k), V: i})
+	}
+	holder := map[string]interface{}{name: sl}
+	return holder, func() string {
+		var parts []string
+		cur := holder[name].([]*c17Item[K])
+		parts = append(parts, fmt.Sprint(len(cur)))
+		for _, it := range cur {
+			parts = append(parts, fmt.Sprint(it.K, "=", it.V))
+		}
+		return strings.Join(parts, ";")
+	}
+}
+
+func c17StructRoot(keytype string, keys []val.Value, asMap bool) (map[string]interface{}, func() string) {
+	switch keytype {
+	case "string":
+		return c17StructObj[string](keytype, keys, asMap)
+	case "int8":
+		return c17StructObj[int8](keytype, keys, asMap)
+	case "int16":
+		return c17StructObj[int16](keytype, keys, asMap)
+	case "int32":
+		return c17StructObj[int32](keytype, keys, asMap)
+	case "int64":
+		return c17StructObj[int64](keytype, keys, asMap)
+	case "uint8":
+		return c17StructObj[uint8](keytype, keys, asMap)
+	case "uint16":
+		return c17StructObj[uint16](keytype, keys, asMap)
+	case "uint32":
+		return c17StructObj[uint32](keytype, keys, asMap)
+	case "uint64":
+		return c17StructObj[uint64](keytype, keys, asMap)
+	case "decimal64":
+		return c17StructObj[float64](keytype, keys, asMap)
+	case "boolean":
+		return c17StructObj[bool](keytype, keys, asMap)
+	}
+	panic("no struct store for " + keytype)
+}
+
+// arrangements of up to max distinct indices of 0..n-1, shortest first.
+func c17Arrangements(n, max int) [][]int {
+	out := [][]int{{}}
+	var rec func(cur []int, used uint)
+	rec = func(cur []int, used uint) {
+		if len(cur) == max {
+			return
+		}
+		for i := 0; i < n; i++ {
+			if used&(1<<uint(i)) != 0 {
+				continue
+			}
+			nx := append(append([]int{}, cur...), i)
+			out = append(out, nx)
+			rec(nx, used|1<<uint(i))
+		}
+	}
+	rec(nil, 0)
+	sort.SliceStable(out, func(a, b int) bool { return len(out[a]) < len(out[b]) })
+	return out
+}
+
+func c17RunLookup(c c17Case) eng.Result {
+	var res eng.Result
+	m := model.Schema("lookup")
+	lm := model.DefAt(m, c.KeyType).(*meta.List)
+	km := lm.KeyMeta()
+	texts := c17LookupKeys[c.KeyType]
+	// key values (one []val.Value per alphabet entry)
+	keyVals := make([][]val.Value, len(texts))
+	for i, t := range texts {
+		parts := strings.Split(t, ",")
+		for j, p := range parts {
+			keyVals[i] = append(keyVals[i], model.ParseScalar(km[j].Type(), p))
+		}
+	}
+	pathOf := func(i int) string {
+		parts := strings.Split(texts[i], ",")
+		for j := range parts {
+			parts[j] = pctEscape(parts[j])
+		}
+		return c.KeyType + "=" + strings.Join(parts, ",")
+	}
+	seen := map[string]bool{}
+	report := func(symptom, what string, content []int, lookup int) {
+		sig := "C17/lookup/" + c.Impl + "/" + c.KeyType + "/" + symptom
+		if seen[sig] {
+			return
+		}
+		seen[sig] = true
+		res.AddCase(sig, fmt.Sprintf("%s; list content (keys in order) %v, lookup key %q", what, textsOf(texts, content), texts[lookupIdx(lookup, len(texts))]), c)
+	}
+	max := 4
+	if len(c.Content) == 1 {
+		max = c.Content[0]
+	}
+	outcomes := map[string]bool{}
+	for _, content := range c17Arrangements(len(texts), max) {
+		// build
+		var root node.Node
+		var snap func() string
+		switch {
+		case strings.Contains(c.Impl, "struct"):
+			var ks []val.Value
+			for _, i := range content {
+				ks = append(ks, keyVals[i][0])
+			}
+			holder, sn := c17StructRoot(c.KeyType, ks, strings.HasSuffix(c.Impl, "structmap"))
+			snap = sn
+			if strings.HasPrefix(c.Impl, "reflect-") {
+				root = nodeutil.ReflectChild(holder)
+			} else {
+				root = &nodeutil.Node{Object: holder}
+			}
+		default:
+			t := model.NewTree()
+			l := &model.List{}
+			for pos, i := range content {
+				e := model.NewTree()
+				for j, k := range km {
+					e.Leaves[k.Ident()] = model.L(keyVals[i][j])
+				}
+				e.Leaves["v"] = model.L(val.Int32(pos))
+				l.Entries = append(l.Entries, e)
+			}
+			t.Lists[c.KeyType] = l
+			st := store.New(c.Impl)
+			if ld, ok := st.(interface {
+				Load([]meta.Definition, *model.Tree) bool
+			}); ok {
+				if !ld.Load(m.DataDefinitions(), t) {
+					continue
+				}
+			} else {
+				st.(interface{ Tree() *model.Tree }).Tree().Lists[c.KeyType] = l
+			}
+			root = st.Root()
+			defs := m.DataDefinitions()
+			snap = func() string {
+				return st.Snapshot(m).Canon(defs, model.CanonOpts{IgnoreEntryOrder: st.MapLists()})
+			}
+		}
+		before := ""
+		frame, msg, panicked := eng.Recover(func() { before = snap() })
+		if panicked {
+			panic("harness snapshot failed: " + frame + " " + msg)
+		}
+		b := node.NewBrowser(m, root)
+		for lookup := range texts {
+			want := -1
+			for pos, i := range content {
+				if i == lookup {
+					want = pos
+				}
+			}
+			res.Evals++
+			if len(content) > 0 {
+				res.Nontriv++
+			}
+			var sel *node.Selection
+			var err error
+			frame, msg, panicked := eng.Recover(func() { sel, err = b.Root().Find(pathOf(lookup)) })
+			switch {
+			case panicked:
+				outcomes["panic"] = true
+				report("panic@"+frame, "lookup panics: "+msg, content, lookup)
+				continue
+			case err != nil:
+				outcomes["error"] = true
+				report("error", "lookup fails: "+eng.NormMsg(err.Error()), content, lookup)
+				continue
+			case sel == nil && want >= 0:
+				outcomes["missed"] = true
+				report("present-key-not-found", "the list holds an entry with the requested key but the lookup finds none", content, lookup)
+				continue
+			case sel != nil && want < 0:
+				outcomes["phantom"] = true
+				got, _ := sel.GetValue("v")
+				report("absent-key-found", fmt.Sprintf("no entry has the requested key but the lookup returns an entry (payload %v)", got), content, lookup)
+				continue
+			case sel == nil:
+				outcomes["absent"] = true
+				continue
+			}
+			outcomes["found"] = true
+			var gv, gk val.Value
+			frame, msg, panicked = eng.Recover(func() {
+				gv, err = sel.GetValue("v")
+				if err == nil {
+					gk, err = sel.GetValue("k")
+				}
+			})
+			if panicked || err != nil {
+				report("read-of-found-entry-fails", fmt.Sprint("reading the found entry fails: ", frame, msg, err), content, lookup)
+				continue
+			}
+			if gv == nil || model.CanonVal(gv) != model.CanonVal(val.Int32(want)) {
+				report("wrong-entry", fmt.Sprintf("the lookup returns the entry at position %v, the key is held by the entry at position %d", gv, want), content, lookup)
+				continue
+			}
+			if gk == nil || model.CanonVal(gk) != model.CanonVal(keyVals[lookup][0]) {
+				report("wrong-key-leaf", fmt.Sprintf("the found entry's key leaf reads %v, want %v", gk, keyVals[lookup][0]), content, lookup)
+			}
+			if k := sel.Key(); len(k) != len(km) || model.CanonVal(k[0]) != model.CanonVal(keyVals[lookup][0]) {
+				report("wrong-selection-key", fmt.Sprintf("the found selection's key is %v, want %v", k, keyVals[lookup]), content, lookup)
+			}
+		}
+		// whole-list walk: every entry exactly once
+		res.Evals++
+		var got []string
+		var werr error
+		frame, msg, panicked = eng.Recover(func() {
+			ls, err := b.Root().Find(c.KeyType)
+			if err != nil || ls == nil {
+				werr = fmt.Errorf("list not found: %v", err)
+				return
+			}
+			it, err := ls.First()
+			for ; err == nil && it.Selection != nil; it, err = it.Next() {
+				v, e := it.Selection.GetValue("v")
+				if e != nil {
+					werr = e
+					return
+				}
+				got = append(got, model.CanonVal(v))
+			}
+			werr = err
+		})
+		if panicked {
+			report("walk-panic@"+frame, "walking the list panics: "+msg, content, -1)
+		} else if werr != nil && len(content) > 0 {
+			report("walk-error", "walking the list fails: "+eng.NormMsg(werr.Error()), content, -1)
+		} else if len(content) > 0 {
+			sort.Strings(got)
+			var want []string
+			for pos := range content {
+				want = append(want, model.CanonVal(val.Int32(pos)))
+			}
+			sort.Strings(want)
+			if strings.Join(got, ",") != strings.Join(want, ",") {
+				report("walk-entries-differ", fmt.Sprintf("a walk over the list meets entries with payloads %v, the list holds %v", got, want), content, -1)
+			}
+		}
+		after := snap()
+		if after != before {
+			report("lookup-modifies-list", fmt.Sprintf("content before %q after %q", before, after), content, -1)
+		}
+	}
+	for o := range outcomes {
+		res.Outcomes = append(res.Outcomes, "lookup:"+o)
+	}
+	sort.Strings(res.Outcomes)
+	return res
+}
+
+func lookupIdx(i, n int) int {
+	if i < 0 {
+		return 0
+	}
+	return i
+}
+
+func textsOf(texts []string, idx []int) []string {
+	out := []string{}
+	for _, i := range idx {
+		out = append(out, texts[i])
+	}
+	return out
+}
